@@ -77,6 +77,18 @@ func c03exec(c *Ctx, st *c03state, op Op, rng *rand.Rand) Ev {
 			}
 			st.cur = [3]*stree.Cursor[int]{}
 			ev["shape"] = shapeOf(st.t.Root())
+		case "fork":
+			// continue on a Clone of the tree; the original is then changed (keys removed and
+			// added) and dropped: nothing of that may show in the clone, whose shape is unchanged
+			orig := st.t
+			st.t = orig.Clone()
+			for _, k := range getis(op, "rem") {
+				orig.Remove(k)
+				orig.Add(k + 1)
+			}
+			ev["rem"] = ints(getis(op, "rem"))
+			st.cur = [3]*stree.Cursor[int]{}
+			ev["shape"] = shapeOf(st.t.Root())
 		case "cursor":
 			st.cur[ci] = st.t.Cursor(geti(op, "key"))
 		case "root":
@@ -239,6 +251,17 @@ func runC03(c *Ctx) {
 					op = Op{"op": "cursor", "c": ci, "key": k}
 				case r < 14:
 					op = Op{"op": "root", "c": ci}
+				case r < 17 && len(pre) > 0:
+					// look a key up, fork, change the original around that key, look it up again and walk
+					k := pre[rng.Intn(len(pre))]
+					h.Emit(c03exec(c, st, Op{"op": "cursor", "c": ci, "key": k}, rng))
+					var rem []int
+					for m := 1 + rng.Intn(3); m > 0; m-- {
+						rem = append(rem, pre[rng.Intn(len(pre))])
+					}
+					h.Emit(c03exec(c, st, Op{"op": "fork", "rem": rem}, rng))
+					h.Emit(c03exec(c, st, Op{"op": "cursor", "c": ci, "key": k}, rng))
+					op = Op{"op": []string{"next", "prev"}[rng.Intn(2)], "c": ci}
 				case r < 26:
 					op = Op{"op": "clone", "c": ci, "c2": 3 - ci}
 				default:
